@@ -6,7 +6,11 @@ The model (`StirVerif.C13`) is executed at `K = Rat`: every `float` printed by t
 `exp` (the model's parameter `E`) is `Float.exp` evaluated at the binary64 value nearest to the exact exponent.
 Every numeric answer is printed as `value@rel`: the exact model value and the relative forward-error bound for the
 `float` computation of the implementation (`rel = 4·k·2⁻²⁴` for `k` float roundings on the path; for the attenuation
-class `k` covers the `n`-term forward projection, `rel = 16·((n+3)·M + 1)·2⁻²⁴` with `M = Σ|a_bj μ̃_j|`). -/
+class `k` covers the `n`-term forward projection, `rel = 16·((n+3)·M + 1)·2⁻²⁴` with `M = Σ|a_bj μ̃_j|`).
+
+Objects with a history (`hist <id> …`) are kept across `cfg` lines as the state machines `CompObj` / `CalibObj` of the model;
+the query operations address them by the same id.  `acf …` evaluates `acfBox` at `K = Float` (binary64 `sqrt`, `exp`):
+the answer carries the relative bound `2·10⁻⁴` (the ray tracing works on `float` coordinates; observed ≤ 2·10⁻⁵). -/
 namespace Driver.C13
 open StirVerif.C13
 
@@ -75,10 +79,18 @@ def tolD : Rat := (parseHex "0x1.a36e2eb1c432dp-14").getD 0
 abbrev Tab := Std.HashMap Bin Rat
 abbrev RowTab := Std.HashMap Bin (List (Rat × Rat))
 
+/-- an object that lives through several `cfg` blocks (histories on ONE object): the state machines of the model -/
+inductive Obj where
+  | comp (o : CompObj Rat)
+  /-- a calibrated table: the state and the name of the table holding the uncalibrated efficiencies (read at every query) -/
+  | calib (o : CalibObj Rat) (u : Bin → Rat)
+
 structure St where
   tabs : Std.HashMap String Tab := {}
   rows : Std.HashMap String RowTab := {}
   norms : Std.HashMap String (Norm Rat) := {}
+  /-- survives `cfg` -/
+  objs : Std.HashMap String Obj := {}
 
 def St.tab (s : St) (name : String) : Bin → Rat :=
   let t := (s.tabs.get? name).getD {}
@@ -111,6 +123,28 @@ def fmt (n : Norm Rat) (b : Bin) : Option Rat → String
   | none => "nonfinite"
   | some q => s!"{q}@{relBound n b}"
 
+/-- what the query operations (`triv`, `eff`, `undo`, `apply`) need from an object -/
+structure View where
+  triv : Option Bool
+  reported : Bin → Option Rat
+  undo : Bin → Rat → Option Rat
+  apply : Bin → Rat → Option Rat
+  rel : Bin → Rat
+
+def viewOfNorm (n : Norm Rat) : View :=
+  { triv := some (isTrivial tolD n), reported := reported n, undo := undo expQ n, apply := apply expQ floorF n, rel := relBound n }
+
+def viewOfObj : Obj → View
+  | .comp o => { triv := o.isTrivial, reported := o.reported, undo := o.undo, apply := o.apply, rel := fun _ => 20 * u24 }
+  | .calib o u => { triv := some false, reported := o.reported u, undo := o.undo u, apply := o.apply floorF u, rel := fun _ => 12 * u24 }
+
+/-! ### the analytic attenuation expectation in binary64 (`acfBox` at `K = Float`) -/
+
+def acfBoxF (mu px py pz qx qy qz x0 x1 y0 y1 : Rat) : Rat :=
+  let F := ratToFloat
+  let len := Float.sqrt ((F qx - F px) * (F qx - F px) + (F qy - F py) * (F qy - F py) + (F qz - F pz) * (F qz - F pz))
+  floatToRat (acfBox Float.exp (F mu) len (F px) (F py) (F qx) (F qy) (F x0) (F x1) (F y0) (F y1))
+
 /-! ### operations -/
 
 /-- prefix expression for a set-up state: `N` | `T su ge` | `B su ge` | `C su ge <expr> <expr>` -/
@@ -133,8 +167,13 @@ def stepLine (s : St) (line : String) : St × String :=
   let I (t : String) : Int := t.toInt?.getD 0
   let Q (t : String) : Rat := (parseHex t).getD 0
   let B (t : String) : Bool := t == "1"
+  -- a plain object of this `cfg` block, or an object with a history
+  let view? (id : String) : Option View :=
+    match s.norms.get? id with
+    | some n => some (viewOfNorm n)
+    | none => (s.objs.get? id).map viewOfObj
   match toks with
-  | "cfg" :: _ => ({}, "ok")
+  | "cfg" :: _ => ({ objs := s.objs }, "ok")
   | "tab" :: name :: seg :: view :: ax :: tof :: tmin :: vals =>
     let t0 := (s.tabs.get? name).getD {}
     let (t1, _) := vals.foldl (fun (acc : Tab × Int) v =>
@@ -146,6 +185,34 @@ def stepLine (s : St) (line : String) : St × String :=
       | _ => []
     let t0 := (s.rows.get? name).getD {}
     ({ s with rows := s.rows.insert name (t0.insert ⟨I seg, I view, I ax, I tang, 0⟩ (pairs vals)) }, "ok")
+  | "hist" :: id :: rest =>
+    let opt (t : String) : Option (Bin → Rat) := if t == "-" then none else some (s.tab t)
+    let put (o : Obj) : St × String := ({ s with objs := s.objs.insert id o }, "ok")
+    match rest, s.objs.get? id with
+    | ["new"], _ => put (.comp CompObj.new)
+    | ["allocate"], some (.comp o) => put (.comp o.allocate)
+    | ["setup", "comp", fan, ea, eb, geo, blk, emin, emax, gmin, gmax, bmin, bmax], some (.comp o) =>
+      let fanT := s.tab fan
+      let c : Components Rat :=
+        { inFan := fun b => fanT b != 0
+          eff := match opt ea, opt eb with
+            | some x, some y => some (x, y)
+            | _, _ => none
+          geo := opt geo, block := opt blk
+          effRange := (Q emin, Q emax), geoRange := (Q gmin, Q gmax), blockRange := (Q bmin, Q bmax) }
+      match o.setUp tolD c with
+      | some o' => put (.comp o')
+      | none => (s, "err")
+    | ["newcalib"], _ => put (.calib CalibObj.new fun _ => 0)
+    | ["setcal", c], some (.calib o u) => put (.calib (o.setCalibration (Q c)) u)
+    | ["setbr", br], some (.calib o u) => put (.calib (o.setRadionuclide (Q br)) u)
+    | ["setup", "calib", t], some (.calib o _) => put (.calib o.setUp (s.tab t))
+    | ["usable"], some o =>
+      -- do `apply`/`undo` get past `check()` (the set-up state only)?
+      (s, if (match o with | .calib c _ => c.setUpDone | .comp c => c.setUpDone) then "ok" else "err")
+    | _, _ => (s, "bad-op")
+  | ["acf", mu, x0, x1, y0, y1, px, py, pz, qx, qy, qz] =>
+    (s, s!"{acfBoxF (Q mu) (Q px) (Q py) (Q pz) (Q qx) (Q qy) (Q qz) (Q x0) (Q x1) (Q y0) (Q y1)}@{(1 : Rat) / 5000}")
   | "norm" :: id :: rest =>
     let opt (t : String) : Option (Bin → Rat) := if t == "-" then none else some (s.tab t)
     let nrm (t : String) : Norm Rat := if t == "null" then .null else (s.norms.get? t).getD .null
@@ -171,17 +238,17 @@ def stepLine (s : St) (line : String) : St × String :=
     | some n => ({ s with norms := s.norms.insert id n }, "ok")
     | none => (s, "bad-op")
   | ["triv", id] =>
-    match s.norms.get? id with
-    | some n => (s, if isTrivial tolD n then "1" else "0")
+    match view? id with
+    | some n => (s, match n.triv with | some true => "1" | some false => "0" | none => "err")
     | none => (s, "bad-op")
   | ["eff", id, seg, view, ax, tof, tmin, cnt] =>
-    match s.norms.get? id with
+    match view? id with
     | some n =>
       let out := (List.range (cnt.toNat?.getD 0)).map fun (k : Nat) =>
         let b : Bin := ⟨I seg, I view, I ax, I tmin + (k : Int), I tof⟩
-        match reported n b with
+        match n.reported b with
         | none => "none"
-        | some q => s!"{q}@{relBound n b}"
+        | some q => s!"{q}@{n.rel b}"
       (s, " ".intercalate out)
     | none => (s, "bad-op")
   | ["setup", "fpd", eq, ge, tmn, tmx, axeq] =>
@@ -226,14 +293,14 @@ def stepLine (s : St) (line : String) : St × String :=
         (s, " ".intercalate out.reverse)
       | _ => (s, "bad-op")
     else if op == "apply" || op == "undo" then
-      match s.norms.get? id with
+      match view? id with
       | some n =>
         let (out, _) := vals.foldl (fun (acc : List String × Int) v =>
           let b : Bin := ⟨I seg, I view, I ax, acc.2, I tof⟩
           let r := match parseHex v with
             | none => none
-            | some x => if op == "apply" then apply expQ floorF n b x else undo expQ n b x
-          (fmt n b r :: acc.1, acc.2 + 1)) ([], I tmin)
+            | some x => if op == "apply" then n.apply b x else n.undo b x
+          ((match r with | none => "nonfinite" | some q => s!"{q}@{n.rel b}") :: acc.1, acc.2 + 1)) ([], I tmin)
         (s, " ".intercalate out.reverse)
       | none => (s, "bad-op")
     else (s, "bad-op")
